@@ -125,7 +125,9 @@ class Exc:
             # only the overloads that take a position (size_t first argument) throw
             args = call_args(call)
             if args and (dtype(args[0]) or '') == 'unsigned long' and nm in ('erase', 'insert', 'replace', 'compare', 'copy'):
-                out.add('std::out_of_range')
+                # position 0 is valid for every string (pos > size() is the only out_of_range condition)
+                if int_value(args[0]) != 0:
+                    out.add('std::out_of_range')
         if nm == 'get' and k == 'CallExpr':
             a = call_args(call)
             if a and 'variant' in (dtype(a[0]) or ''):
